@@ -15,7 +15,8 @@ import (
 func main() {
 	// every replayed path opens a fresh ffldb/leveldb instance whose 4 MiB write
 	// buffers dominate allocation; a lazier collector avoids re-faulting them
-	debug.SetGCPercent(800)
+	debug.SetGCPercent(300)
+	debug.SetMemoryLimit(8 << 30)
 	stop := func() {}
 	if p := os.Getenv("VERIF_CPUPROFILE"); p != "" {
 		if f, err := os.Create(p); err == nil {
